@@ -4,6 +4,7 @@ import (
 	"fmt"
 	"math"
 	"strconv"
+	"strings"
 	"time"
 
 	"github.com/cube2222/octosql/octosql"
@@ -12,50 +13,109 @@ import (
 // Diff is one discrepancy between a produced value and the ground truth.
 type Diff struct {
 	Path  string
-	Class string // float-1ulp | float | null-for-value | value | kind | structure
+	Class string // float-ulp | float | nested-null-in-union | null-for-value | value | kind | structure
 	What  string
 }
 
 func (d Diff) String() string { return d.Path + ": " + d.Class + ": " + d.What }
 
-// DiffSet collects discrepancies; 1-ULP float differences are kept apart so that they (frequent
-// on the unchanged tree) cannot crowd out a discrepancy of another kind.
+// Path is a lazily rendered position ("row 12 .a[3].b"): comparisons push and pop segments and
+// only a discrepancy pays for formatting.
+type Path struct{ segs []pathSeg }
+
+type pathSeg struct {
+	kind byte // 'r' row, 'f' field, 'i' index, 'c' column
+	name string
+	idx  int
+}
+
+func Row(i int) *Path { return &Path{segs: []pathSeg{{kind: 'r', idx: i}}} }
+
+func (p *Path) Field(name string) *Path { p.segs = append(p.segs, pathSeg{kind: 'f', name: name}); return p }
+func (p *Path) Col(name string) *Path   { p.segs = append(p.segs, pathSeg{kind: 'c', name: name}); return p }
+func (p *Path) Index(i int) *Path       { p.segs = append(p.segs, pathSeg{kind: 'i', idx: i}); return p }
+func (p *Path) Pop()                    { p.segs = p.segs[:len(p.segs)-1] }
+
+func (p *Path) String() string {
+	var sb strings.Builder
+	for _, s := range p.segs {
+		switch s.kind {
+		case 'r':
+			sb.WriteString("row ")
+			sb.WriteString(strconv.Itoa(s.idx))
+			sb.WriteString(" ")
+		case 'f':
+			sb.WriteString(".")
+			sb.WriteString(s.name)
+		case 'c':
+			sb.WriteString("col ")
+			sb.WriteString(strconv.Quote(s.name))
+		case 'i':
+			sb.WriteString("[")
+			sb.WriteString(strconv.Itoa(s.idx))
+			sb.WriteString("]")
+		}
+	}
+	return sb.String()
+}
+
+// DiffSet collects discrepancies per class, so that a frequent class (few-ULP float differences
+// on the unchanged tree) cannot crowd out a discrepancy of another kind, and so that every class
+// present in one file is reported under its own key.
 type DiffSet struct {
-	Ulp       int
-	UlpSample []Diff
-	Other     []Diff
-	OtherN    int
+	N        int
+	PerClass map[string]*ClassDiffs
+	order    []string
+}
+
+type ClassDiffs struct {
+	N       int
+	Samples []Diff
 }
 
 func (s *DiffSet) Add(d Diff) {
-	if d.Class == "float-1ulp" {
-		s.Ulp++
-		if len(s.UlpSample) < 3 {
-			s.UlpSample = append(s.UlpSample, d)
-		}
-		return
+	if s.PerClass == nil {
+		s.PerClass = map[string]*ClassDiffs{}
 	}
-	s.OtherN++
-	if len(s.Other) < 12 {
-		s.Other = append(s.Other, d)
+	c := s.PerClass[d.Class]
+	if c == nil {
+		c = &ClassDiffs{}
+		s.PerClass[d.Class] = c
+		s.order = append(s.order, d.Class)
+	}
+	s.N++
+	c.N++
+	if len(c.Samples) < 4 {
+		c.Samples = append(c.Samples, d)
 	}
 }
 
-func (s *DiffSet) Empty() bool { return s.Ulp == 0 && s.OtherN == 0 }
+func (s *DiffSet) Empty() bool { return s.N == 0 }
 
-func (s *DiffSet) String() string {
+// Classes in first-seen order.
+func (s *DiffSet) Classes() []string { return s.order }
+
+func (s *DiffSet) Count(class string) int {
+	if c := s.PerClass[class]; c != nil {
+		return c.N
+	}
+	return 0
+}
+
+// Hard is the number of discrepancies other than few-ULP float differences.
+func (s *DiffSet) Hard() int { return s.N - s.Count("float-ulp") }
+
+func (s *DiffSet) Describe(class string) string {
+	c := s.PerClass[class]
+	if c == nil {
+		return ""
+	}
 	out := ""
-	for _, d := range s.Other {
-		out += d.String() + "; "
+	for _, d := range c.Samples {
+		out += d.Path + ": " + d.What + "; "
 	}
-	if s.OtherN > len(s.Other) {
-		out += fmt.Sprintf("(%d discrepancies in total) ", s.OtherN)
-	}
-	for _, d := range s.UlpSample {
-		out += d.String() + "; "
-	}
-	if s.Ulp > len(s.UlpSample) {
-		out += fmt.Sprintf("(%d one-ULP discrepancies in total)", s.Ulp)
+	if c.N > len(c.Samples) {
+		out += fmt.Sprintf("(%d such discrepancies in this file)", c.N)
 	}
 	return out
 }
@@ -88,8 +148,10 @@ func floatDiff(path string, got, want float64, lit string) *Diff {
 	if FloatEq(got, want) {
 		return nil
 	}
-	if d := UlpDistance(got, want); d == 1 {
-		return &Diff{path, "float-1ulp", fmt.Sprintf("literal %s read as %s, correctly rounded value is %s", lit, strconv.FormatFloat(got, 'g', -1, 64), strconv.FormatFloat(want, 'g', -1, 64))}
+	// anticipated defect: fastfloat.Parse computes mantissa/10^k and then multiplies by 10^exp in
+	// floating point, so a literal WITH an exponent part may come out a few ULP off
+	if d := UlpDistance(got, want); d >= 1 && d <= 4 && strings.ContainsAny(lit, "eE") {
+		return &Diff{path, "float-ulp", fmt.Sprintf("literal %s read as %s (%d ULP off), correctly rounded value is %s", lit, strconv.FormatFloat(got, 'g', -1, 64), d, strconv.FormatFloat(want, 'g', -1, 64))}
 	}
 	return &Diff{path, "float", fmt.Sprintf("literal %s read as %s, correctly rounded value is %s", lit, strconv.FormatFloat(got, 'g', -1, 64), strconv.FormatFloat(want, 'g', -1, 64))}
 }
@@ -177,8 +239,8 @@ func ShowVal(v octosql.Value) string {
 // CompareJSON compares the value octosql produced for a JSON cell with the model value m
 // (present=false: the key was absent). t is the column type the datasource reported; it is used
 // only to find the names of struct fields (struct values are positional).
-func CompareJSON(path string, t octosql.Type, v octosql.Value, m interface{}, present bool, out *DiffSet) {
-	add := func(class, what string) { out.Add(Diff{path, class, what}) }
+func CompareJSON(path *Path, t octosql.Type, v octosql.Value, m interface{}, present bool, out *DiffSet) {
+	add := func(class, what string) { out.Add(Diff{path.String(), class, what}) }
 	if !present || m == nil {
 		if v.TypeID != octosql.TypeIDNull {
 			add("value", "JSON null/absent key produced "+ShowVal(v))
@@ -186,6 +248,12 @@ func CompareJSON(path string, t octosql.Type, v octosql.Value, m interface{}, pr
 		return
 	}
 	if v.TypeID == octosql.TypeIDNull {
+		// anticipated defect: inside a union-typed position an array/object that contains a JSON
+		// null (or lacks an optional key) anywhere is dropped as a whole
+		if t.TypeID == octosql.TypeIDUnion && HasNullLike(t, m) {
+			add("nested-null-in-union", "JSON value "+trunc(Show(m), 120)+" under type "+trunc(TypeText(t), 120)+" produced NULL")
+			return
+		}
 		add("null-for-value", "JSON value "+trunc(Show(m), 120)+" produced NULL")
 		return
 	}
@@ -199,8 +267,8 @@ func CompareJSON(path string, t octosql.Type, v octosql.Value, m interface{}, pr
 	case Num:
 		if v.TypeID != octosql.TypeIDFloat {
 			add("kind", "JSON number "+x.Lit+" produced "+ShowVal(v))
-		} else if d := floatDiff(path, v.Float, x.Val, x.Lit); d != nil {
-			out.Add(*d)
+		} else if !FloatEq(v.Float, x.Val) {
+			out.Add(*floatDiff(path.String(), v.Float, x.Val, x.Lit))
 		}
 	case string:
 		switch v.TypeID {
@@ -232,11 +300,12 @@ func CompareJSON(path string, t octosql.Type, v octosql.Value, m interface{}, pr
 		if lt != nil && lt.List.Element != nil {
 			et = *lt.List.Element
 		} else if len(x) > 0 {
-			add("structure", "non-empty list under a type without element type: "+t.String())
+			add("structure", "non-empty list under a type without element type: "+TypeText(t))
 			return
 		}
 		for i := range x {
-			CompareJSON(fmt.Sprintf("%s[%d]", path, i), et, v.List[i], x[i], true, out)
+			CompareJSON(path.Index(i), et, v.List[i], x[i], true, out)
+			path.Pop()
 		}
 	case *Obj:
 		if v.TypeID != octosql.TypeIDStruct {
@@ -245,7 +314,7 @@ func CompareJSON(path string, t octosql.Type, v octosql.Value, m interface{}, pr
 		}
 		st := structType(t)
 		if st == nil || len(st.Struct.Fields) != len(v.Struct) {
-			add("structure", "object value with "+strconv.Itoa(len(v.Struct))+" fields under type "+t.String())
+			add("structure", "object value with "+strconv.Itoa(len(v.Struct))+" fields under type "+TypeText(t))
 			return
 		}
 		seen := 0
@@ -254,14 +323,47 @@ func CompareJSON(path string, t octosql.Type, v octosql.Value, m interface{}, pr
 			if ok {
 				seen++
 			}
-			CompareJSON(path+"."+f.Name, f.Type, v.Struct[i], mv, ok, out)
+			CompareJSON(path.Field(f.Name), f.Type, v.Struct[i], mv, ok, out)
+			path.Pop()
 		}
 		if seen != len(x.Keys) {
-			add("structure", fmt.Sprintf("JSON object has %d keys, only %d of them are in the type %s", len(x.Keys), seen, st.String()))
+			add("structure", fmt.Sprintf("JSON object has %d keys, only %d of them are in the type %s", len(x.Keys), seen, TypeText(*st)))
 		}
 	default:
 		add("kind", fmt.Sprintf("model %T", m))
 	}
+}
+
+// HasNullLike: m is an array/object holding, at any depth, a JSON null or an object that lacks a
+// field of the struct type at that position.
+func HasNullLike(t octosql.Type, m interface{}) bool {
+	switch x := m.(type) {
+	case []interface{}:
+		var et octosql.Type
+		if lt := listType(t); lt != nil && lt.List.Element != nil {
+			et = *lt.List.Element
+		}
+		for _, e := range x {
+			if e == nil || HasNullLike(et, e) {
+				return true
+			}
+		}
+	case *Obj:
+		for _, v := range x.Vals {
+			if v == nil {
+				return true
+			}
+		}
+		if st := structType(t); st != nil {
+			for _, f := range st.Struct.Fields {
+				v, ok := x.Get(f.Name)
+				if !ok || HasNullLike(f.Type, v) {
+					return true
+				}
+			}
+		}
+	}
+	return false
 }
 
 func firstByteDiff(got, want string) string {
